@@ -8,6 +8,9 @@ CONSTANTS MaxItems = 2
  Budget = 1
  IdOffs <- IdOffs1
  Rules = {"assume", "substitution", "subproof"}
+ ArgKinds = {}
+ ArityOffs <- ArityOffs1
+ MaxAlias = 0
  Emit = TRUE
 INVARIANT RefSound
 INVARIANT RefGapFree
